@@ -26,7 +26,7 @@ def xlsx(d):
 
 
 EXTRA = {"'[b.xlsx]S'!L1": '', "'[b.xlsx]S'!L2": '=#N/A', "'[b.xlsx]S'!L3": '#EMPTY', "'[b.xlsx]S'!L4": True,
-         "'[b.xlsx]S'!L5": '="x"&""', "'[b.xlsx]S'!M1:N2": "={1,2;3,4}*'[b.xlsx]S'!A2"}
+         "'[b.xlsx]S'!L5": '="x"&""', "'[b.xlsx]S'!L6": '="="&"A1"', "'[b.xlsx]S'!L7": '="=1+"&"1"', "'[b.xlsx]S'!M1:N2": "={1,2;3,4}*'[b.xlsx]S'!A2"}
 SETS = [{}, {"'[b.xlsx]S'!A1": 1}, {"'[b.xlsx]S'!A1": 'txt', "'[b.xlsx]S'!A2": 0}, {"'[b.xlsx]S'!H1:I2": [[4, 7], [9, 'q']]},
         {"'[b.xlsx]'!NM": 9}, {"'[b.xlsx]S'!B1": 100}, {"'[b.xlsx]S'!A1": True}, {"'[b.xlsx]S'!A2": M.errors()['#DIV/0!']}]
 
@@ -64,7 +64,8 @@ def _write(i, j, k, how):
         ws.title = 'S'
         ws['Z9'], ws['A1'] = 'keep', 'old'
         wb.create_sheet('OTHER')['A1'] = 42
-        pre = {'B.XLSX': {BOOK: wb}}
+        # the caller's key is spelled as the caller likes (file names are case-insensitive)
+        pre = {('B.XLSX', 'b.xlsx', 'B.xlsx')[k % 3]: {BOOK: wb}}
     tmp = None
     try:
         if how == 2:                     # to disk and read back
@@ -77,6 +78,11 @@ def _write(i, j, k, how):
                 return False             # the model compared with its own written files: no difference
         else:
             books = m.write(books=pre, solution=sol)
+            if len({b.upper() for b in books}) != len(books):
+                return False             # one workbook per file, whatever the spelling of its key
+            if pre is not None and any(books[b][BOOK] is not pre[b][BOOK] for b in pre):
+                return False
+            books = {b.upper(): v for b, v in books.items()}
         written = set()
         for key, r in sol.items():
             if isinstance(key, sh.Token) or not hasattr(r, 'ranges') or not r.ranges:
@@ -96,6 +102,8 @@ def _write(i, j, k, how):
                     written.add((book, sheet, cell.coordinate))
                     if not same(cell.value, expected_cell(val[a, b])):
                         return False     # every solved cell at its own sheet and coordinates
+                    if cell.data_type == 'f':
+                        return False     # a solved value is written as a value (text starting with '=' too)
         if how == 1:                     # cells outside the solution are untouched
             wb = books['B.XLSX'][BOOK]
             if wb['S']['Z9'].value != 'keep' or wb['OTHER']['A1'].value != 42:
